@@ -194,6 +194,15 @@ class SiteScan:
                             return True, ""
                 if a[0] == "const" and b_[0] == "const" and a[2] >= b_[2]:
                     return True, ""
+                # (c as usize) - K with c confined from below by comparisons on this path (a range pattern 'K'..=..)
+                if a[0] == "cast" and b_[0] == "const" and isinstance(b_[2], int):
+                    x = a[2] if len(a) > 2 else None
+                    for ga, go in g.items():
+                        if ga[0] == "lt" and x is not None:
+                            if ga[1] == x and ga[2][0] == "const" and isinstance(ga[2][2], int) and go is False and ga[2][2] >= b_[2]:
+                                return True, ""
+                            if ga[2] == x and ga[1][0] == "const" and isinstance(ga[1][2], int) and go is True and ga[1][2] + 1 >= b_[2]:
+                                return True, ""
                 # a = x + c, b = c' with c >= c'
                 if a[0] == "add" and a[1][0] == "const" and b_[0] == "const" and a[1][2] >= b_[2]:
                     return True, ""
